@@ -39,6 +39,8 @@ BUDGET = {
     "cell_number": 1, "surface_number": 1, "material_number": 1, "transform_number": 1, "universe_number": 2,
     "importance": 6, "importance_all": 10, "volume": 2, "atom_density": 1, "mass_density": 1,
     "surface_constant": 1, "location": 1, "radius": 1, "fraction": 1, "displacement": 1,
+    # a region edit adds an operator and an operand and may add or drop parentheses around what was there
+    "geometry_and": 8, "geometry_or": 8,
 }
 
 
@@ -85,6 +87,35 @@ def run_case(case):
         except Exception as e:  # noqa: BLE001
             return {"skip": "edited write raised " + type(e).__name__ + ": " + str(e)[:100], "script": script}
     return {"w0": w0, "w1": w1, "script": script, "affected": aff, "data_owner": owners, "renumberings": renum}
+
+
+def _inside_parentheses(text, comment, dollar=True):
+    """does the comment `comment` ($ comment, or C comment line) of the written file `text` stand inside a pair of
+    parentheses of its input (between an opening parenthesis and the one that closes it)?  Used only to narrow the
+    signature of a lost comment: parentheses that a region edit makes redundant are dropped together with what
+    hangs on them."""
+    lines = text.split("\n")
+
+    def is_c(l):
+        t = l.lstrip(" ")
+        return len(l) - len(t) < 5 and t[:1] in ("c", "C") and (len(t) == 1 or t[1] == " ")
+
+    for k, line in enumerate(lines):
+        if dollar:
+            if is_c(line) or "$" not in line or line.split("$", 1)[1].strip() != comment.strip():
+                continue
+            here = line.split("$", 1)[0]
+        else:
+            if not is_c(line) or line.lstrip(" ")[1:].strip() != comment.strip():
+                continue
+            here = ""
+        j = k
+        while j > 0 and (is_c(lines[j]) or lines[j][:5].strip() == "" or lines[j - 1].rstrip().endswith("&")):
+            j -= 1
+        before = " ".join(l.split("$", 1)[0] for l in lines[j:k] if not is_c(l)) + " " + here
+        if before.count("(") > before.count(")"):
+            return True
+    return False
 
 
 def _words(card):
@@ -184,7 +215,16 @@ def judge(case, r, cards):
                             f"{tag}[{i}] is not affected by {r['script']} but changed: {' '.join(x['words'])[:80]!r} -> {' '.join(y['words'])[:80]!r}"))
             else:
                 if not same_comments:
-                    out.append((dict(base, **{"class": "comments-of-edited-input-changed", "input": tag}),
+                    lost = [c for c in x["dollar"] if c not in y["dollar"]]
+                    lost_c = [c for c in x["ccomments"] if c not in y["ccomments"]]
+                    gained = [c for c in y["dollar"] if c not in x["dollar"]] + [c for c in y["ccomments"] if c not in x["ccomments"]]
+                    cause = "none"
+                    if tag == "cell" and (lost or lost_c) and not gained \
+                            and all(e[0] in ("geometry_and", "geometry_or") or e[0].endswith("_number") for e in r["script"]) \
+                            and all(_inside_parentheses(r.get("w0") or "", c) for c in lost) \
+                            and all(_inside_parentheses(r.get("w0") or "", c, dollar=False) for c in lost_c):
+                        cause = "comment-inside-parentheses-of-edited-region"
+                    out.append((dict(base, **{"class": "comments-of-edited-input-changed", "input": tag, "cause": cause}),
                                 f"{tag}[{i}] comments {x['dollar']}/{x['ccomments']} -> {y['dollar']}/{y['ccomments']}"))
                 n = _ndiff(wx, wy, renum)
                 if n > budget and not (tag == "data" and "celldata" in aff):
@@ -264,8 +304,32 @@ m1 1001.80c 1.0
 """
 
 
+# finding C07-F1 (parentheses made redundant by a region edit are dropped with the comment that hangs on them) and
+# seeded C07e (an operand appended to a one-surface geometry lands behind the $ comment that follows the surface)
+CORPUS_TEXT5 = """region edits next to comments
+1 0 ( $ inside redundant parentheses
+        -1 )
+2 0 1 $ outside world
+3 0 1 -2 $ shell
+4 0 (
+c a comment line inside parentheses
+     -2 )
+99 0 2 $ the rest
+
+1 so 1
+2 so 2
+3 so 3
+
+mode n
+imp:n 1 0 1 1 0
+"""
+
+
 def gen_cases(chk):
     cases = []
+    for k in range(24):
+        cases.append({"name": f"corpus-region-edit-comments-{k}", "limit": 128, "text": CORPUS_TEXT5, "seed": 7400 + k, "nedits": 1,
+                      "kinds": ["geometry_and", "geometry_or"]})
     for k in range(6):
         cases.append({"name": f"corpus-trailing-plain-parameter-{k}", "limit": 128, "text": CORPUS_TEXT4, "seed": 7300 + k, "nedits": 1,
                       "kinds": ["volume"]})
